@@ -157,6 +157,13 @@ pub fn json_parse(
     Ok(Guarded::unguarded(value))
 }
 
+fn is_callable(value: &JsValue) -> bool {
+    match value {
+        JsValue::Object(obj) => matches!(obj.borrow().exotic, ExoticObject::Function(_)),
+        _ => false,
+    }
+}
+
 /// Convert a JsValue to JSON, with public API for external callers (without circular detection)
 pub fn js_value_to_json(value: &JsValue) -> Result<serde_json::Value, JsError> {
     let mut visited = FxHashSet::default();
@@ -259,13 +266,15 @@ fn js_value_to_json_with_visited(
                             drop(obj_ref); // Release borrow before recursive calls
 
                             for (key, val) in props {
-                                let json_val = js_value_to_json_with_visited(&val, visited)?;
-                                // Skip undefined values in objects
-                                if json_val != serde_json::Value::Null
-                                    || !matches!(val, JsValue::Undefined)
+                                // Properties whose value has no JSON form (undefined,
+                                // functions, symbols) are omitted from objects.
+                                if matches!(val, JsValue::Undefined | JsValue::Symbol(_))
+                                    || is_callable(&val)
                                 {
-                                    map.insert(key, json_val);
+                                    continue;
                                 }
+                                let json_val = js_value_to_json_with_visited(&val, visited)?;
+                                map.insert(key, json_val);
                             }
                             serde_json::Value::Object(map)
                         }
@@ -345,8 +354,10 @@ pub fn json_to_js_value_with_guard(
             let obj = interp.create_object(guard);
             for (key, value) in map {
                 let js_value = json_to_js_value_with_guard(interp, value, guard)?;
-                let interned_key = PropertyKey::String(interp.intern(key));
-                obj.borrow_mut().set_property(interned_key, js_value);
+                // Canonical key: "0", "17", ... must become index keys, exactly as a
+                // script's `obj["0"]` / `obj[0]` lookup will spell them.
+                let canonical_key = interp.property_key(key);
+                obj.borrow_mut().set_property(canonical_key, js_value);
             }
             JsValue::Object(obj)
         }
